@@ -14,6 +14,7 @@ EXPLANATION = ("C18: ring discipline of nni_lmq / nni_msgq (every cursor increme
 EXPLANATION += " Round 3: lmq_mask is the storage's extent minus one wherever storage is installed (R9); drain loops end only when the count is zero (R10)."
 EXPLANATION += ' Round 5: a removal replaces the id table only once the map is empty, because the visit cursor is a table index (R14).'
 EXPLANATION += ' A send buffer that grows admits the senders blocked on it (R15).'
+EXPLANATION += ' Round 6: a buffer-size option discards only what no longer fits (R19).'
 
 RING = {"nni_lmq.lmq_msgs": ("nni_lmq.lmq_get", "nni_lmq.lmq_put", "nni_lmq.lmq_mask", "nni_lmq.lmq_len", "nni_lmq.lmq_cap"),
         "nni_msgq.mq_msgs": ("nni_msgq.mq_get", "nni_msgq.mq_put", "nni_msgq.mq_alloc", "nni_msgq.mq_len", "nni_msgq.mq_cap")}
